@@ -96,8 +96,23 @@ func (c *Case) Shrinks() []sim.CaseI {
 		out = append(out, d)
 	}
 	for i := range c.Mods {
+		// dropping a module version also drops every requirement on it: the registry stays well-formed
 		d := c.clone()
+		gone := d.Mods[i]
 		d.Mods = append(d.Mods[:i], d.Mods[i+1:]...)
+		strip := func(rs []Req) []Req {
+			var o []Req
+			for _, r := range rs {
+				if r.P != gone.Path || r.V != gone.Version {
+					o = append(o, r)
+				}
+			}
+			return o
+		}
+		for j := range d.Mods {
+			d.Mods[j].Deps = strip(d.Mods[j].Deps)
+		}
+		d.MainDeps = strip(d.MainDeps)
 		out = append(out, d)
 	}
 	for i := range c.MainDeps {
@@ -639,6 +654,7 @@ type tidyOutcome struct {
 	err   error
 	canon string
 	text  []byte
+	deps  map[string]string // module path → listed version
 }
 
 func (o tidyOutcome) String() string {
@@ -657,7 +673,11 @@ func runTidy(h *harness, mainFS fstest.MapFS) tidyOutcome {
 	if err != nil {
 		return tidyOutcome{err: fmt.Errorf("cannot format tidied module file: %v", err)}
 	}
-	return tidyOutcome{canon: canonFile(res.Module), text: text}
+	deps := map[string]string{}
+	for p, d := range res.Module.Deps {
+		deps[p] = d.Version
+	}
+	return tidyOutcome{canon: canonFile(res.Module), text: text, deps: deps}
 }
 
 var errNotFound = modregistry.ErrNotFound
@@ -768,6 +788,8 @@ func exec(t *testing.T, ci sim.CaseI, choices []uint32, keepLog bool) *sim.Outco
 			// P5: the outcome is the one of the canonical schedule
 			if (first.err != nil) != (ref.err != nil) || (first.err == nil && first.canon != ref.canon) {
 				v = &sim.Violation{Class: "schedule-dependent-result", Msg: fmt.Sprintf("tidy under this schedule: %s\ncanonical schedule:       %s", first, ref)}
+			} else if v = consistent(u, first); v != nil {
+				// P3 reported
 			} else if didSecond {
 				// P4: fixpoint
 				if second.err != nil {
@@ -802,6 +824,42 @@ func exec(t *testing.T, ci sim.CaseI, choices []uint32, keepLog bool) *sim.Outco
 	}
 	out.Final = first.String()
 	return out
+}
+
+// consistent is the part of an independent resolution that needs no knowledge
+// of import resolution rules (P3): in a tidied module file no listed version
+// is lower than what another listed dependency's own module file requires,
+// i.e. the listed versions are the ones minimal version selection selects.
+func consistent(u *universe, o tidyOutcome) *sim.Violation {
+	if o.err != nil {
+		return nil
+	}
+	var paths []string
+	for p := range o.deps {
+		paths = append(paths, p)
+	}
+	sort.Strings(paths)
+	for _, p := range paths {
+		mv, err := module.NewVersion(p, o.deps[p])
+		if err != nil {
+			continue
+		}
+		d := u.mods[mv]
+		if d == nil {
+			return &sim.Violation{Class: "lists-unknown-version", Msg: fmt.Sprintf("the tidied module file lists %v, which the registry does not have", mv)}
+		}
+		for _, r := range d.mf.DepVersions() {
+			have, ok := o.deps[r.Path()]
+			if !ok {
+				continue
+			}
+			hv, err := module.NewVersion(r.Path(), have)
+			if err == nil && hv.Compare(r) < 0 {
+				return &sim.Violation{Class: "listed-version-below-requirement", Msg: fmt.Sprintf("the tidied module file lists %v, but the listed %v requires %v: %s", hv, mv, r, o)}
+			}
+		}
+	}
+	return nil
 }
 
 var Prop = &sim.Prop{
